@@ -711,6 +711,18 @@ fn gen_fixture(rng: &mut Rng) -> FixSc {
         let sel = rng.below(nodes[to].len() as u64 + if to == from { 2 } else { 0 }) as u8;
         sends.push(FixSend { at_ms: rng.range(0, 10) as u32, from, to, sel, burst: rng.range(1, 4) as u8, tcp: rng.chance(1, 6) });
     }
+    if !lo && rng.chance(1, 8) {
+        // many delayed packets in flight at once: a large burst whose packets alternate between two delays
+        // (two deadlines, each shared by half of the burst, emitted interleaved), followed one tick later by
+        // a second burst whose deadlines cross those of the first
+        let (d1, d2) = (*rng.pick(&DELAYS), *rng.pick(&DELAYS));
+        rules.insert(0, FixRule { spec: RuleSpec { id: 90, table: vec![V::Deliver(d1), V::Deliver(d2)] }, node: rng.below(n as u64) as usize, at_ms: 0, until_ms: None });
+        let from = rng.below(n as u64) as usize;
+        let to = (from + 1) % n;
+        let t = rng.range(1, 5) as u32;
+        sends.push(FixSend { at_ms: t, from, to, sel: 0, burst: rng.range(22, 40) as u8, tcp: false });
+        sends.push(FixSend { at_ms: t + 1, from, to, sel: 0, burst: rng.range(4, 24) as u8, tcp: false });
+    }
     FixSc { lo, nodes, rules, sends, run_ms: 22 }
 }
 
